@@ -292,8 +292,10 @@ def container_finder_runs(ctx, is_collection=True, is_sequence=True):
             return _Found()
 
     class _Sane(AObj):
+        of = None
+
         def __repr__(self):
-            return '<child hint>'
+            return '<child hint>' if self.of is None else f'<child hint sanified from {getattr(self.of, "name", self.of)!r}>'
 
     class _ACause(AObj):
         _track_attribute_stores = True
@@ -311,10 +313,14 @@ def container_finder_runs(ctx, is_collection=True, is_sequence=True):
             self.cause_indent = ''
 
         def permute_cause(self, **kw):
+            # which part of the object is explained against which child hint
+            log.append(('child-cause', (repr(kw.get('pith')), repr(kw.get('hint_curr', kw.get('hint_sane'))))))
             return _Child(kw)
 
         def sanify_hint_child(self, h):
-            return _Sane()
+            s_ = _Sane()
+            s_.of = h
+            return s_
 
     class _HC(AObj):
         def __init__(self, sign):
